@@ -7,7 +7,7 @@
 From Coq Require Import List Arith Lia.
 Import ListNotations.
 From Soy Require Import Model.Bytes Model.Ast Model.Token Model.ExprParser Model.Parser Model.Chan
-  Proofs.ChanProofs Proofs.ParserProofs Proofs.CmdParserFuel Proofs.RecvOnlyTok Proofs.ChanConsumer.
+  Proofs.ChanProofs Proofs.ParserProofs Proofs.ExprParserFuel Proofs.CmdParserFuel Proofs.RecvOnlyTok Proofs.ChanConsumer.
 
 Section SoyFile.
 Variable inlen : N.
@@ -51,3 +51,44 @@ Proof.
 Qed.
 End SoyFile.
 Print Assumptions ro_chan_soy_file.
+
+(* ---------- parse.Expr (soy_expr: the repaired entry point, drained on every return) ---------- *)
+Section SoyExpr.
+Variable inlen : N.
+
+Theorem ro_chan_soy_expr (p : Chan.prod tok) sched F k r0 :
+  items_wf inlen (items p) -> (length (items p) + 8 <= F)%nat -> (length (items p) + 4 <= k)%nat ->
+  g_cons (run zero_tok sched (cfg_init p (ro_expr_prog inlen true F k))) = CRet r0 ->
+  match po_result (soy_expr inlen (items p)), r0 with
+  | POk a q, POk a' q' => a = a' /\ ro_pclear q = q'
+  | PErr t c q, PErr t' c' q' => t = t' /\ c = c' /\ ro_pclear q = q'
+  | _, _ => False
+  end.
+Proof.
+  intros Hw HF Hk Hret. set (ts := items p) in *.
+  destruct (parse_expr_entry_post true inlen ts F Hw ltac:(lia)) as (T1 & L1 & _).
+  destruct (parse_expr_entry_post true inlen ts (expr_fuel ts) Hw ltac:(unfold expr_fuel; lia)) as (T2 & _ & _).
+  assert (EF : parse_expr F 0 (pst_init ts) = parse_expr (expr_fuel ts) 0 (pst_init ts)).
+  { apply parse_expr_agree.
+    - intros E. unfold parse_expr_entry in T1. rewrite E in T1. exact T1.
+    - intros E. unfold parse_expr_entry in T2. rewrite E in T2. exact T2. }
+  unfold soy_expr. unfold parse_expr_entry in *. rewrite <- EF.
+  assert (Hobs : exists n d r, ro_expr_obs inlen true F ts = Some (n, d, r) /\ (n <= k)%nat /\
+            match parse_expr F 0 (pst_init ts), r with
+            | POk a q, POk a' q' => a = a' /\ ro_pclear q = q' /\ True
+            | PErr t c q, PErr t' c' q' => t = t' /\ c = c' /\ ro_pclear q = q' /\ (t_pos t <=? inlen)%N = true
+            | _, _ => False
+            end).
+  { unfold ro_expr_obs, ro_pobs.
+    destruct (parse_expr F 0 (pst_init ts)) as [a q|t c q|m|]; cbn in T1, L1; try contradiction.
+    - eexists _, _, _. split; [reflexivity|]. split; [lia|auto].
+    - destruct (t_pos t <=? inlen)%N eqn:Ep; cbn in T1, L1; try contradiction.
+      eexists _, _, _. split; [reflexivity|]. split; [lia|auto]. }
+  destruct Hobs as (n & d & r & Eobs & Hn & Hrel).
+  pose proof (ro_chan_parse_expr inlen true F p sched k n d r r0 Eobs Hn Hret) as ->.
+  destruct (parse_expr F 0 (pst_init ts)) as [a q|t c q|m|]; destruct r as [a' q'|t' c' q'|m'|]; try contradiction.
+  - destruct Hrel as (H1 & H2 & _). cbn [po_result]. auto.
+  - destruct Hrel as (H1 & H2 & H3 & H4). rewrite H4. cbn [po_result]. auto.
+Qed.
+End SoyExpr.
+Print Assumptions ro_chan_soy_expr.
